@@ -27,7 +27,7 @@ CHECKS = {
                 text="Every stage output is compared with the input by `conserved`; Scfg.C05.conserved_sound unfolds it into the property.", ref="§7 C05"),
     "C06": dict(cat="translation_validation", tech="Lean 4: verified closed-set check (invOK_sound) over the reachable configurations with consuming latches ⇒ no control-variable error on any path (no_ctl_error) + tablesOK",
                 text="Every stage output is checked by `ctlOK`; Scfg.C06.no_ctl_error proves that then no path of any length reads an unset or out-of-range "
-                     "control variable (latches consume their variable), tables_sound gives the static table property.", ref="§7 C06"),
+                     "control variable (latches consume their variable), tables_sound gives the static table property. 'After every renaming' is also a-priori for the model of SyntheticBranch.replace_jump_targets (Props/C06Tables.lean, all blocks, tables and new tuples of equal length): replaceJts_pos_values / _covers / _keys / _lookup / _tableOK - the rewritten table names only new successors, names every new successor, keeps every key (an in-range variable stays in range) and renames each key's entry positionally; that model is compared dump-for-dump with the code in C14's edit histories and C02's pipeline correspondence.", ref="§7 C06"),
     "C14": dict(cat="proof", tech="Lean 4: a-priori theorems about the model of the rewiring loop, of whole insert_block calls (plain predecessors) and of join_returns + exact-dump correspondence of the edit-primitive model with the code + Lean arc-specification decider on real before/after pairs",
                 text="Scfg/Model/Edit.lean models insert_block, insert_block_and_control_blocks, join_returns, join_tails_and_exits, table maintenance and region renaming including abort sites; "
                      "Scfg.C14.rewire_frame/rewire_rerouted/rewire_new_once/rewire_id are proved for all target lists and all S; random edit histories on real SCFG objects are compared dump-for-dump with the model after every step, "
